@@ -13,6 +13,7 @@ def run(tier):
     c.notes["rejections the transcribed pipeline only makes in a debug build (Mech |/= Prop, information)"] = dbg
     beh = list(dict.fromkeys(r.behaviours))
     # byte-level damage and formatting variants of the base documents (option tuples of spec/Parse.tla's FormatOptions)
+    if not r.records.get("F"): raise tlc.SetupError("Parse.tla emitted no base documents for the formatting variants")
     fmt = jsonmut.variants(r.records.get("F", []), quick)
     res = replay.replay(exe, beh + fmt, shards=16, timeout_s=60)
     c.add_replay(res, "construction (and four probe queries) under AddressSanitizer + UndefinedBehaviorSanitizer")
